@@ -39,8 +39,15 @@ Kinds == << [lo |-> "cwd", hi |-> "ones"], [lo |-> "cwd", hi |-> "zero"], [lo |-
 NK == Len(Kinds)
 ND == Len(DirPaths)
 NoD == [lo |-> "none", hi |-> "zero", dirp |-> <<>>]
-NoP == [abs |-> FALSE, comps |-> <<>>, trail |-> FALSE]
+PS(abs, comps, trail) == [abs |-> abs, comps |-> comps, trail |-> trail, pre |-> "", pdir |-> <<>>]
+NoP == PS(FALSE, <<>>, FALSE)
 DK(k, d) == [lo |-> Kinds[k].lo, hi |-> Kinds[k].hi, dirp |-> IF Kinds[k].lo = "fd" THEN DirPaths[d] ELSE <<>>]
+
+\* procfs alias in front of a relative name (only where that gives a well-formed case)
+Pres == <<"pcwd", "proot", "pfd", "ptcwd">>
+WithPre(ps, x, d) ==     \* x in 0..7: 0..3 no alias
+  IF x < 4 \/ ps.abs \/ ps.comps = <<>> THEN ps
+  ELSE [ps EXCEPT !.pre = Pres[x - 3], !.pdir = IF x = 6 THEN DirPaths[d] ELSE <<>>]
 
 OFlags == <<"O_CREAT", "O_EXCL", "O_TRUNC", "O_APPEND", "O_NOFOLLOW", "O_DIRECTORY", "O_CLOEXEC", "O_PATH">>
 Bits(v, names) == { names[j] : j \in { j \in DOMAIN names : (v \div (2 ^ (j - 1))) % 2 = 1 } }
@@ -50,7 +57,7 @@ Mk(fam, f, cwd, sc, acc, fl, d1, p1, d2, p2) ==
    d1 |-> IF HasArg(sc, "d1") THEN d1 ELSE NoD, p1 |-> p1,
    d2 |-> IF HasArg(sc, "d2") THEN d2 ELSE NoD, p2 |-> IF HasArg(sc, "p2") THEN p2 ELSE NoP]
 
-\* ---- W
+\* ---- W   (fam = "skip": the index does not denote a well-formed string; the driver drops it)
 WCase(i, ra, rb) ==
   LET f     == (i % NF) + 1
       i1    == i \div NF
@@ -58,7 +65,7 @@ WCase(i, ra, rb) ==
       i2    == i1 \div NC
       trail == (i2 % 2) = 1
       abs   == ((i2 \div 2) % 2) = 1
-      ps    == [abs |-> abs, comps |-> CompsOf(i2 \div 4), trail |-> trail]
+      ps0   == PS(abs, CompsOf(i2 \div 4), trail)
       sc    == Syscalls[(ra % Len(Syscalls)) + 1]
       a1    == ra \div Len(Syscalls)
       d1    == DK((a1 % NK) + 1, ((a1 \div NK) % ND) + 1)
@@ -67,34 +74,37 @@ WCase(i, ra, rb) ==
       fl    == IF sc \in OpenFamily THEN Bits(fv \div 4, SubSeq(OFlags, 1, 6))
                ELSE AtChoices(sc)[(fv % Len(AtChoices(sc))) + 1]
       x2    == rb % NP3
-      ps2c  == [abs |-> ((rb \div 400) % 2) = 1, comps |-> CompsOf(x2), trail |-> ((rb \div 800) % 2) = 1]
+      ps2c  == PS(((rb \div 400) % 2) = 1, CompsOf(x2), ((rb \div 800) % 2) = 1)
       ps2   == IF WellFormed(ps2c) THEN ps2c ELSE [ps2c EXCEPT !.abs = TRUE]
       d2    == DK(((rb \div 1600) % NK) + 1, ((rb \div 11200) % ND) + 1)
-  IN IF WellFormed(ps) THEN {Mk("W", f, cwd, sc, acc, fl, d1, ps, d2, ps2)} ELSE {}
+      ps    == WithPre(ps0, (rb \div 56000) % 8, ((rb \div 11200) % ND) + 1)
+  IN Mk(IF WellFormed(ps0) THEN "W" ELSE "skip", f, cwd, sc, acc, fl, d1, ps, d2, ps2)
 
 Ra(i) == (i * 7919 + (Seed % 1000) * 104729 + 12345) % 999983
 Rb(i) == (i * 48611 + (Seed % 1000) * 7 + 1) % 999979
 
-WSel  == UNION { WCase(Sel[j][1] % N4, Sel[j][2], Sel[j][3]) : j \in DOMAIN Sel }
-WAll3 == IF All3 THEN UNION { WCase(i, Ra(i), Rb(i)) : i \in 0..(N3 - 1) } ELSE {}
+WSel  == [ j \in DOMAIN Sel |-> WCase(Sel[j][1] % N4, Sel[j][2], Sel[j][3]) ]
+WAll3 == IF All3 THEN [ i \in 1..N3 |-> WCase(i - 1, Ra(i - 1), Rb(i - 1)) ] ELSE <<>>
 
 \* ---- K: class of every open flag word
 KCases ==
-  { Mk("K", 1, R, sc, acc, fl, DK(k, 1), [abs |-> FALSE, comps |-> <<"a", "b">>, trail |-> FALSE], NoD, NoP) :
+  { Mk("K", 1, R, sc, acc, fl, DK(k, 1), PS(FALSE, <<"a", "b">>, FALSE), NoD, NoP) :
       sc \in OpenFamily, acc \in 0..3, fl \in SUBSET KFlags, k \in KKinds }
 
-\* ---- A: argument positions and descriptor encodings of every call
-Shapes == << [abs |-> FALSE, comps |-> <<"b", "a">>, trail |-> FALSE],
-             [abs |-> TRUE,  comps |-> r(<<"a", "b">>), trail |-> FALSE],
-             [abs |-> FALSE, comps |-> <<"l1", "b">>, trail |-> FALSE],
-             [abs |-> FALSE, comps |-> <<"..", "b", "b">>, trail |-> FALSE] >>
+\* ---- A: argument positions, descriptor encodings and procfs aliases of every call
+Shapes == << PS(FALSE, <<"b", "a">>, FALSE), PS(TRUE, r(<<"a", "b">>), FALSE),
+             PS(FALSE, <<"l1", "b">>, FALSE), PS(FALSE, <<"..", "b", "b">>, FALSE) >>
 ACases ==
   { Mk("A", f, r(<<"a">>), sc, IF sc \in OpenFamily THEN acc ELSE 0,
        IF sc \in OpenFamily THEN {} ELSE AtChoices(sc)[1],
        DK(k, (k % ND) + 1), Shapes[s], DK(((k + 2) % NK) + 1, ((k + 2) % ND) + 1), Shapes[(s % 4) + 1]) :
       f \in AForests, sc \in ToSet(Syscalls), acc \in {0, 1}, k \in 1..NK, s \in 1..4 }
+  \cup
+  { Mk("A", f, r(<<"a">>), sc, 0, IF sc \in OpenFamily THEN {} ELSE AtChoices(sc)[1],
+       DK(7, 1), WithPre(Shapes[s], x, 2), DK(1, 1), WithPre(Shapes[(s % 4) + 1], 11 - x, 1)) :
+      f \in AForests, sc \in ToSet(Syscalls), x \in 4..7, s \in {1, 3, 4} }
 
-Cases == SetToSeq(WAll3 \cup WSel) \o SetToSeq(KCases) \o SetToSeq(ACases)
+Cases == WAll3 \o WSel \o SetToSeq(KCases) \o SetToSeq(ACases)
 
 Forests == [ i \in 1..NF |-> [id |-> i,
                nodes |-> SetToSeq({ [p |-> p, t |-> Forest(i)[p].t, abs |-> Forest(i)[p].abs, tgt |-> Forest(i)[p].tgt] :
